@@ -10,9 +10,9 @@ package workers
 //@ // out is the new counter value unless it exceeds the limit.
 //@ func (*PoolManager).NextIteration
 //@   props C03
-//@   requires m.iteration < 18446744073709551615
+//@   note the 64-bit counter is assumed not to wrap (fewer than 2^64 iterations per run); the step is stated modulo 2^64
 //@   modifies m.iteration
-//@   ensures [step] m.iteration == old(m.iteration) + 1
+//@   ensures [step] m.iteration == (old(m.iteration) + 1) % 18446744073709551616
 //@   ensures [issued] (m.maxIterations == 0 || m.iteration <= m.maxIterations) ==> (result.1 == nil && result.0 == m.iteration)
 //@   ensures [refused] (m.maxIterations > 0 && m.iteration > m.maxIterations) ==> (result.1 != nil && result.0 == 0)
 //@
@@ -71,7 +71,6 @@ package workers
 //@ func (*ActiveScenario).Run
 //@   props C01 C06 C07 C16 C17
 //@   requires wfScenario(s) && wfState(state) && !state.t.failed && !state.t.tearingDown && tracks(s.progress)
-//@   requires NrecD < 18446744073709551615
 //@   dyncall teardown : method testing.(*T).teardown(state.t)
 //@   ghost at entry : Gphase = 0
 //@   ghost after call xtime.NanoTime #0 : assert [clock-first] Gphase == 0 ; Gphase = 1 ; GT0 = ret0
@@ -92,14 +91,14 @@ package workers
 //@           (!Gfailed ==> GMiter["success"] == old(GMiter["success"]) + 1 && GMiter["fail"] == old(GMiter["fail"]))) && GMiter["dropped"] == old(GMiter["dropped"])
 //@   ensures [duration] GT0 <= GbodyStart && GbodyEnd <= GT1 && GT1 - GT0 >= GbodyEnd - GbodyStart
 //@   ensures [cleanups] forall j int :: 0 <= j && j < GnCleanups ==> Gcalled[j] == old(Gcalled[j]) + 1
-//@   ensures [done] Gphase == 8 && tracks(s.progress) && state.t.tearingDown
+//@   ensures [done] Gphase == 8 && tracks(s.progress) && state.t.tearingDown && wfState(state)
 //@
 //@ func (*ActiveScenario).RecordDroppedIteration
 //@   props C01 C02 C16
-//@   requires wfScenario(s) && tracks(s.progress) && NrecD < 18446744073709551615
+//@   requires wfScenario(s) && tracks(s.progress)
 //@   modifies GMiter, s.progress.successfulIterationDurations.running, s.progress.failedIterationDurations.running, s.progress.droppedIterationCount,
 //@            NrecS, NrecF, NrecD, SumS, SumF, MinS, MinF, MaxS, MaxF
-//@   ensures [counted-once] NrecD == old(NrecD) + 1 && NrecS == old(NrecS) && NrecF == old(NrecF) && tracks(s.progress)
+//@   ensures [counted-once] NrecD == (old(NrecD) + 1) % 18446744073709551616 && NrecS == old(NrecS) && NrecF == old(NrecF) && tracks(s.progress)
 //@   ensures [exported] s.m.IterationMetricsEnabled ==> GMiter["dropped"] == old(GMiter["dropped"]) + 1
 //@
 //@ func (*ActiveScenario).Failed
@@ -113,3 +112,94 @@ package workers
 //@   requires s.t != nil
 //@   modifies nothing
 //@   ensures result == s.t.teardownFailed
+//@
+//@ // ---- C04: a fixed pool of `concurrency` workers, each owning a fresh handle
+//@ func (*ActiveScenario).newIterationState
+//@   props C04 C03 C07 C01
+//@   requires s.scenario != nil
+//@   ensures [fresh] fresh(result) && fresh(result.t) && result.t < result
+//@   ensures [wf] wfState(result) && !result.t.failed && !result.t.tearingDown
+//@
+//@ func (*PoolManager).makeIterationStatePool
+//@   props C04 C03 C07 C01 C14
+//@   requires numWorkers >= 0 && m.activeScenario != nil && m.activeScenario.scenario != nil
+//@   loop 0 invariant 0 <= i && i < numWorkers && len(statePool) == numWorkers && fresh(statePool)
+//@   loop 0 invariant forall a int :: 0 <= a && a < i ==> fresh(statePool[a]) && fresh(statePool[a].t) && statePool[a].t < statePool[a] && wfState(statePool[a])
+//@   loop 0 invariant forall a int, b int :: 0 <= a && a < b && b < i ==> statePool[a] < statePool[b].t
+//@   ensures [size] len(result) == numWorkers
+//@   ensures [fresh] forall a int :: 0 <= a && a < numWorkers ==> fresh(result[a]) && fresh(result[a].t) && wfState(result[a])
+//@   ensures [distinct] forall a int, b int :: 0 <= a && a < b && b < numWorkers ==> result[a] != result[b] && result[a].t != result[b].t
+//@
+//@ // ---- worker pools (C03 consume protocol, C04 spawn count / own handle, C05 wait-group balance, C07 worker survives)
+//@ ghost var Gid int
+//@ ghost var Gok bool
+//@ ghost var Greset bool
+//@ ghost var Gruns int
+//@ ghost var Gwg int
+//@ ghost var Gspawned int
+//@
+//@ pred wfManager(m *PoolManager) = m != nil && wfScenario(m.activeScenario) && tracks(m.activeScenario.progress)
+//@
+//@ func (*jobCounter).set
+//@   props C02 C03 C05
+//@   modifies w.num
+//@   ensures result == old(w.num) && w.num == n
+//@
+//@ func (*jobCounter).none
+//@   props C02 C03 C05
+//@   modifies nothing
+//@   ensures result == (w.num <= 0)
+//@
+//@ func (*jobCounter).take
+//@   props C02 C03
+//@   modifies w.num
+//@   ensures w.num == old(w.num) - 1 && result == (w.num >= 0)
+//@
+//@ func (*TriggerPool).running
+//@   props C02 C03 C05
+//@   modifies nothing
+//@   ensures result == !p.stopWorkers
+//@
+//@ func (*TriggerPool).maxIterationsReached
+//@   props C02 C03 C05
+//@   requires p.workerCtxCancel != nil
+//@   dyncall workerCtxCancel : cancelFunc
+//@   modifies p.jobsToExecute.num
+//@   ensures p.jobsToExecute.num == 0
+//@
+//@ fnspec cancelFunc()
+//@   modifies nothing
+//@
+//@ func (*TriggerPool).waitForNewJobs
+//@   props C02 C03 C05
+//@   requires p.jobsAvailableCond != nil
+//@   modifies nothing
+//@
+//@ func (*TriggerPool).run
+//@   props C03 C04 C05 C07
+//@   thread-root
+//@   requires wfManager(p.manager) && wfState(iterationState) && startWg != nil && p.jobsAvailableCond != nil && p.workerCtxCancel != nil
+//@   ghost at entry : Gok = false ; Greset = false
+//@   ghost after call (*PoolManager).NextIteration : Gid = ret0 ; Gok = (ret1 == nil)
+//@   ghost before call (*T).Reset : assert [reset-after-issue] Gok && !Greset ; assert [reset-id] arg1 == formatUint(Gid, 10) ; assert [own-handle] arg0 == iterationState.t ; Greset = true
+//@   ghost before call (*ActiveScenario).Run : assert [run-after-reset] Gok && Greset ; assert [own-state] arg1 == iterationState ; Gok = false ; Greset = false ; Gruns = Gruns + 1
+//@   loop 0 invariant !Gok && !Greset && wfManager(p.manager) && wfState(iterationState)
+//@   ensures [consumed] !Gok
+//@
+//@ func (*ContinuousPool).startWorker
+//@   props C03 C04 C05 C07
+//@   thread-root
+//@   requires wfManager(p.manager) && wfState(iterationState) && workersStarted != nil && p.workerCtxCancel != nil
+//@   dyncall workerCtxCancel : cancelFunc
+//@   ghost at entry : Gok = false ; Greset = false
+//@   ghost after call (*PoolManager).NextIteration : Gid = ret0 ; Gok = (ret1 == nil)
+//@   ghost before call (*T).Reset : assert [reset-after-issue] Gok && !Greset ; assert [reset-id] arg1 == formatUint(Gid, 10) ; assert [own-handle] arg0 == iterationState.t ; Greset = true
+//@   ghost before call (*ActiveScenario).Run : assert [run-after-reset] Gok && Greset ; assert [own-state] arg1 == iterationState ; Gok = false ; Greset = false ; Gruns = Gruns + 1
+//@   loop 0 invariant !Gok && !Greset && wfManager(p.manager) && wfState(iterationState)
+//@   ensures [consumed] !Gok
+//@
+//@ func (*ContinuousPool).maxIterationsReached
+//@   props C03 C05
+//@   requires p.workerCtxCancel != nil
+//@   dyncall workerCtxCancel : cancelFunc
+//@   modifies nothing
